@@ -171,7 +171,7 @@ func init() {
 					}
 				}
 			}
-			for _, k := range []string{"deb", "rpm", "apk", "ipk", "archlinux", "dpkg", "alpine", "pacman", "aaa", "zzz", "DEB", "Rpm", "rpm ", "debian", "arch"} {
+			for _, k := range []string{"deb", "rpm", "apk", "ipk", "archlinux", "dpkg", "alpine", "pacman", "aaa", "zzz", "DEB", "Rpm", "rpm ", "debian", "arch", "linux", "pk", "eb", "pm", "a", "deb,rpm", ","} {
 				if !yield(C13Case{Part: "validate", Key: k}) {
 					return
 				}
@@ -199,6 +199,17 @@ func init() {
 			for _, k := range Formats {
 				for _, how := range []string{"-p", "extension", "conventional-extension", "-p-uppercase", "extension-uppercase"} {
 					if !yield(C13Case{Part: "cli", Key: k, First: how}) {
+						return
+					}
+				}
+			}
+			// a document of more than a megabyte (thorough: five) whose override blocks come last
+			for _, k := range Formats {
+				if !yield(C13Case{Part: "large", Key: k}) {
+					return
+				}
+				if env.Thorough() {
+					if !yield(C13Case{Part: "large", Key: k, All: true}) {
 						return
 					}
 				}
@@ -530,6 +541,47 @@ func checkC13(env *engine.Env, ci any) engine.Outcome {
 			keyParts = append(keyParts, f+"="+fmt.Sprint(hashString(got)))
 		}
 		out.Key = fmt.Sprintf("%s:%s:%v:%v:%v:%v:%v:%v:%s:%s:%s", c.Key, c.Key2, c.All, c.BaseUnset, c.Null, c.Bystanders, c.Leaves, c.Empty, c.First, c.Second, strings.Join(keyParts, ","))
+	case "large":
+		var b strings.Builder
+		b.WriteString("name: pkg\narch: amd64\nversion: 1.2.3\nmaintainer: M <m@example.com>\ndepends:\n- base-dep\numask: 0o002\ncontents:\n")
+		size := 1200 << 10
+		if c.All {
+			size = 5 << 20
+		}
+		n := 0
+		for b.Len() < size {
+			fmt.Fprintf(&b, "- dst: /srv/d/%07d\n  type: dir\n", n)
+			n++
+		}
+		b.WriteString("overrides:\n")
+		for _, f := range Formats {
+			fmt.Fprintf(&b, "  %s:\n    depends:\n    - only-%s\n    umask: 0o027\n", f, f)
+		}
+		cfg, err := parseYAML(b.String(), nil)
+		out.Transitions++
+		out.Nontrivial = true
+		out.Key = fmt.Sprintf("large:%s:%d:%v", c.Key, size, err != nil)
+		if err != nil {
+			viol("merge:large-document-rejected", "a valid document of %d bytes (override blocks last) is not parsed: %v", b.Len(), err)
+			return out
+		}
+		info, gerr := safeGet(&cfg, c.Key)
+		if gerr != nil {
+			viol("merge:get-error:"+c.Key, "Get(%s) failed: %v", c.Key, gerr)
+			return out
+		}
+		if len(info.Depends) != 1 || info.Depends[0] != "only-"+c.Key || info.Umask != 0o027 {
+			viol("merge:large-document:override-lost:"+c.Key, "document of %d bytes with %d contents entries and the override blocks last: Get(%s) gives depends %v umask %o, want [only-%s] 27", b.Len(), n, c.Key, info.Depends, info.Umask, c.Key)
+		}
+		dirs := 0
+		for _, e := range info.Contents {
+			if e.Type == "dir" {
+				dirs++
+			}
+		}
+		if dirs != n {
+			viol("merge:large-document:contents-lost:"+c.Key, "of %d contents entries Get(%s) gives %d", n, c.Key, dirs)
+		}
 	case "validate":
 		doc := deepCopyMap(base)
 		doc["overrides"] = map[string]any{c.Key: map[string]any{"depends": []any{"x"}}}
